@@ -18,6 +18,18 @@ CHECKS = {
  "C09": ("typestate of the lexer channel (close on every exit of the goroutine, drain deferred on every path of ParseQuery) + edge-cut path search for the end-of-input test with NORETURN summaries + value-range provenance of the placeholder number + table of panic operand types",
          "Static, for every input string: no parse can leave the lexer goroutine blocked; no query is returned on a path that has not seen the end-of-input token; the placeholder number cannot wrap when narrowed to int32; every panic raised by the parser is an error value caught by ParseQuery's recover handler.",
          "Not decided: language equality with the EBNF and tree shape; runtime-panic freedom of the lexer's index arithmetic; termination (all need numeric/language reasoning not available statically here).", "DESIGN.md §4 C09"),
+ "C11": ("ownership (freshness) census of every store to generated message structs program-wide + symbolic index-bounds check (dominating comparisons over loads of the same field path with linear offsets) + edge-cut path search for the arity test",
+         "Static, for every query text, argument list and execution history: binding writes only into the deep copy; no code outside the generated package modifies a message it did not create, so statement templates are immutable; the argument slice is indexed only under 0 <= n-1 < len; both statement kinds test the argument count before binding on every path.",
+         "Not decided: that argument n lands in $n for all n (value-level). Trusted: proto.Clone deep-copies; database/sql argument order.", "DESIGN.md §4 C11"),
+ "C12": ("dominating-guard rule on the total-count row + error-flow rule over all error-returning calls of the driver + table/shape rules on the column list, the column-type split and Rows.Next",
+         "Static, for all datasets/queries/options: the single total row is built only when the group-by list is empty; every error from parsing, conversion, execution, opening and the RPC propagates; columns are group-by columns then \"count\", typed TEXT/BIGINT with the split at len(cols)-1, and Next places values and count accordingly.",
+         "Not decided: equality of row values/order with the library result (values). Trusted: database/sql's use of the Rows interface.", "DESIGN.md §4 C12"),
+ "C13": ("table agreement of converter field mappings and oneof case coverage (typed SSA stores) + SSA provenance chain of the appended response element + must-pass-through of the append per iteration + error-flow",
+         "Static, for all batches: converters map each field to its namesake (reviewed exceptions) and set every exported field; every oneof wrapper has a case yielding the matching node with its own operands in order; each loop iteration appends exactly its own query's converted result with the right id; errors yield a nil response; both driver paths build rows the same way.",
+         "Not decided: equality of counts/groups with the library (values); wire encoding losslessness (trusted).", "DESIGN.md §4 C13"),
+ "C14": ("interprocedural nil-ability analysis of protobuf message pointers (fixpoint over call sites) with dominating nil guards + non-nil-by-construction check of conversion results + error-flow in the handler",
+         "Static, for every decodable request: every dereference of a possibly-nil message pointer reachable from the handler is nil-guarded; conversion never yields a nil Expression without an error and operands are used only when their conversion succeeded; handler errors become RPC errors. Necessary because grpc-go does not recover handler panics.",
+         "Not decided: recursion depth for deeply nested expressions (bounded by protobuf-go/gRPC limits, trusted); continued correct service afterwards beyond lock release (C04).", "DESIGN.md §4 C14"),
  "C15": ("constant-option evaluation of the open hook + dominating nil/length guards + error-flow + must-pass-through (Close before every error return) on the open functions",
          "Static, for every damaged file and every open/close sequence: OpenIndex cannot create a missing file; every dereference/decoding of file contents while opening is dominated by the matching guard and every decode error is propagated; every error return of the open function is preceded by a Close of the handle on all paths; Index.Close is nil-guarded and resets the handle.",
          "Not decided: which byte patterns fail to decode; panics inside bbolt/roaring on malformed bytes (trusted not to occur).", "DESIGN.md §4 C15"),
